@@ -405,7 +405,7 @@ pub struct DetCase {
 }
 
 pub fn det_s() -> BoxedStrategy<DetCase> {
-    let general = proptest::collection::vec((any::<u16>(), 0u8..15), 0..7);
+    let general = proptest::collection::vec((any::<u16>(), 0u8..16), 0..7);
     // only uses of a macro whose body holds several jumps, all to undefined labels: every jump of one use is recorded
     // at the position of that use, so the order among them is not decided by the position
     let multi = proptest::collection::vec((any::<u16>(), 11u8..14), 1..3);
@@ -433,13 +433,28 @@ pub fn det_source(c: &DetCase) -> String {
             13 => format!("jq3(undef_c{}, undef_a{}, undef_b{})", k, k, k),
             // no exact 'start' but several labels that spell it in another case (handled after the loop)
             14 => "nop".to_string(),
+            // ordinary labels that spell start in another case, next to the real start (labels are case sensitive)
+            15 => format!("START:\nmov dl, 36\nmov ah, 2\nint 0x21\nStart:\nmov dl, 37\nint 0x21\nsTart{}:", k),
             6 => format!("dup_{}: nop\ndup_{}: nop", k, k),
             _ => "mov ax, 70000".to_string(),
         };
         // top level only (a label definition may not be valid inside every context)
         lines.insert(at.min(lines.len()), stmt);
     }
-    if c.errors.iter().any(|(_, k)| *k == 14) {
+    // kind 15 may be drawn several times: keep one copy (a second would be a duplicate definition)
+    {
+        let mut seen = false;
+        lines.retain(|l| {
+            if l.starts_with("START:\nmov dl, 36") {
+                if seen {
+                    return false;
+                }
+                seen = true;
+            }
+            true
+        });
+    }
+    if c.errors.iter().any(|(_, k)| *k == 14) && !c.errors.iter().any(|(_, k)| *k == 15) {
         // start: -> START: and a second variant further down
         for l in lines.iter_mut() {
             if l.trim() == "start:" {
@@ -502,8 +517,11 @@ pub fn eval_det(c: &DetCase) -> CaseOutcome {
     if n_mac >= 2 && first.out_str().contains("used but not defined") {
         classes.push("c19/determinism-several-undefined-labels-from-one-macro".into());
     }
-    if c.errors.iter().any(|(_, k)| *k == 14) {
+    if c.errors.iter().any(|(_, k)| *k == 14) && !c.errors.iter().any(|(_, k)| *k == 15) {
         classes.push("c19/determinism-start-in-other-case-only".into());
+    }
+    if c.errors.iter().any(|(_, k)| *k == 15) {
+        classes.push("c19/determinism-start-and-case-variants".into());
     }
     if c.errors.iter().any(|(_, k)| *k >= 11 && *k <= 13) && c.errors.iter().all(|(_, k)| *k <= 4 || (*k >= 8 && *k <= 13)) && first.out_str().contains("used but not defined") {
         classes.push("c19/determinism-several-undefined-labels-from-one-macro-use".into());
